@@ -211,6 +211,10 @@ pub enum Expr {
     /// further children. No source text means this; all children must still be evaluated, in
     /// order, before the operator looks at how many there are.
     Extra(bool, Box<Expr>, Vec<Expr>),
+    /// a `VariableIdentifierWrite` leaf in value position (what the tree builder makes of the
+    /// last identifier before an assignment sign, e.g. the `a` in `n + a = 5`): evaluates to its
+    /// own name as a string, on both paths, without touching the context. Assembled only.
+    WriteName(String),
 }
 
 impl Expr {
@@ -222,7 +226,7 @@ impl Expr {
                 Value::String(_) | Value::Boolean(_) => true,
                 Value::Tuple(_) | Value::Empty => true, // rendered with their own parentheses
             },
-            Expr::Read(_) => true,
+            Expr::Read(_) | Expr::WriteName(_) => true,
             Expr::Call(..) => true, // `f(...)` binds tightest and carries its own parentheses
             Expr::Tuple(_) | Expr::Chain(_) => true, // always rendered parenthesised when nested
             _ => false,
@@ -231,7 +235,7 @@ impl Expr {
 
     pub fn size(&self) -> usize {
         1 + match self {
-            Expr::Lit(_) | Expr::Read(_) => 0,
+            Expr::Lit(_) | Expr::Read(_) | Expr::WriteName(_) => 0,
             Expr::Call(_, a) => a.as_ref().map(|a| a.size()).unwrap_or(0),
             Expr::Un(_, a) => a.size(),
             Expr::Bin(_, a, b) => a.size() + b.size(),
@@ -245,7 +249,7 @@ impl Expr {
 
     pub fn depth(&self) -> usize {
         1 + match self {
-            Expr::Lit(_) | Expr::Read(_) => 0,
+            Expr::Lit(_) | Expr::Read(_) | Expr::WriteName(_) => 0,
             Expr::Call(_, a) => a.as_ref().map(|a| a.depth()).unwrap_or(0),
             Expr::Un(_, a) => a.depth(),
             Expr::Bin(_, a, b) => a.depth().max(b.depth()),
@@ -260,7 +264,7 @@ impl Expr {
     pub fn has_assignment(&self) -> bool {
         match self {
             Expr::Assign(..) | Expr::AssignTo(..) => true,
-            Expr::Lit(_) | Expr::Read(_) => false,
+            Expr::Lit(_) | Expr::Read(_) | Expr::WriteName(_) => false,
             Expr::Call(_, a) => a.as_ref().map(|a| a.has_assignment()).unwrap_or(false),
             Expr::Un(_, a) | Expr::Dangling(_, a) => a.has_assignment(),
             Expr::Bin(_, a, b) => a.has_assignment() || b.has_assignment(),
@@ -335,6 +339,12 @@ impl Expr {
         match self {
             Expr::Lit(v) => render_value(v, out),
             Expr::Read(n) => out.push_str(n),
+            // (display only: not source text)
+            Expr::WriteName(n) => {
+                out.push_str("«write ");
+                out.push_str(n);
+                out.push('»');
+            },
             Expr::Call(f, None) => {
                 out.push_str(f);
                 out.push_str("()");
@@ -437,7 +447,7 @@ impl Expr {
 
     fn assemble_operand(&self, wrap: bool) -> Node {
         let n = self.assemble_inner(wrap);
-        let compound = !matches!(self, Expr::Lit(_) | Expr::Read(_) | Expr::Call(..));
+        let compound = !matches!(self, Expr::Lit(_) | Expr::Read(_) | Expr::WriteName(_) | Expr::Call(..));
         if wrap && compound {
             mk(Operator::RootNode, vec![n])
         } else {
@@ -450,6 +460,12 @@ impl Expr {
             Expr::Lit(v) => mk(Operator::Const { value: v.clone() }, vec![]),
             Expr::Read(n) => mk(
                 Operator::VariableIdentifierRead {
+                    identifier: n.clone(),
+                },
+                vec![],
+            ),
+            Expr::WriteName(n) => mk(
+                Operator::VariableIdentifierWrite {
                     identifier: n.clone(),
                 },
                 vec![],
@@ -520,6 +536,7 @@ impl Expr {
         match self {
             Expr::Lit(v) => Json::obj().with("lit", value_to_json(v)),
             Expr::Read(n) => Json::obj().with("read", Json::s(n.clone())),
+            Expr::WriteName(n) => Json::obj().with("write_name", Json::s(n.clone())),
             Expr::Call(f, a) => Json::obj().with("call", Json::s(f.clone())).with(
                 "arg",
                 match a {
@@ -560,6 +577,9 @@ impl Expr {
         }
         if let Some(n) = j.get("read") {
             return Ok(Expr::Read(n.as_str().ok_or("bad read")?.to_string()));
+        }
+        if let Some(n) = j.get("write_name") {
+            return Ok(Expr::WriteName(n.as_str().ok_or("bad write_name")?.to_string()));
         }
         if let Some(f) = j.get("call") {
             let arg = match j.get("arg") {
@@ -646,6 +666,9 @@ impl Expr {
             Expr::Read(_) => {
                 out.push(Expr::Lit(Value::Int(0)));
             },
+            Expr::WriteName(n) => {
+                out.push(Expr::Lit(Value::String(n.clone())));
+            },
             _ => {
                 out.push(Expr::Lit(Value::Int(0)));
                 out.push(Expr::Lit(Value::Boolean(true)));
@@ -694,7 +717,7 @@ impl Expr {
 
     pub fn children(&self) -> Vec<&Expr> {
         match self {
-            Expr::Lit(_) | Expr::Read(_) => vec![],
+            Expr::Lit(_) | Expr::Read(_) | Expr::WriteName(_) => vec![],
             Expr::Call(_, a) => a.iter().map(|b| &**b).collect(),
             Expr::Un(_, a) => vec![a],
             Expr::Bin(_, a, b) => vec![a, b],
@@ -708,7 +731,7 @@ impl Expr {
 
     fn with_child(&self, i: usize, c: Expr) -> Expr {
         match self {
-            Expr::Lit(_) | Expr::Read(_) => self.clone(),
+            Expr::Lit(_) | Expr::Read(_) | Expr::WriteName(_) => self.clone(),
             Expr::Call(f, _) => Expr::Call(f.clone(), Some(Box::new(c))),
             Expr::Un(u, _) => Expr::Un(*u, Box::new(c)),
             Expr::Bin(b, l, r) => {
@@ -884,7 +907,7 @@ impl Expr {
             Expr::Tuple(v) | Expr::Chain(v) => v.len() >= 2 && v.iter().all(|e| e.is_renderable()),
             Expr::Assign(_, n, e) => !crate::env::API_ONLY_NAMES.contains(&n.as_str()) && e.is_renderable(),
             // assembled only: how the parser groups a dangling operator is not this check's business
-            Expr::Dangling(..) | Expr::Extra(..) => false,
+            Expr::Dangling(..) | Expr::Extra(..) | Expr::WriteName(_) => false,
             // a bare identifier before `=` would be read as the variable itself
             Expr::AssignTo(_, t, e) => {
                 !matches!(**t, Expr::Read(_)) && t.is_renderable() && e.is_renderable()
